@@ -1,1 +1,496 @@
-(* Proofs/NamingFacts.v -- lemmas; see DESIGN.md section 7 *)
+(* Proofs/NamingFacts.v -- property C12: title and module name of a page, the @module rules,
+   the head of a rendered page; and the two path facts used for C12/C17. *)
+From Coq Require Import String List NArith Bool Arith Lia.
+From CMinx Require Import Base.Str Model.Writer Model.DocTypes Model.Pipeline Model.Naming
+     Model.Path.
+Import ListNotations.
+
+(* ---- spec ---- *)
+
+(* the page name built from an optional prefix, with the extension kept or dropped *)
+Definition expected_name (prefix : option str) (sep stem : str) (keep_ext : bool) : str :=
+  (match prefix with Some p => p ++ sep | None => [] end)
+  ++ stem ++ (if keep_ext then cmake_ext else []).
+
+Definition starts_with_module (docs : list entry) : bool :=
+  match docs with EModule _ _ :: _ => true | _ => false end.
+
+(* a path component: non-empty and without a slash *)
+Definition comp_ok (c : str) : bool := negb (str_eqb c []) && negb (mem slash c).
+
+(* an absolute path given by its components *)
+Definition abs_of (comps : list str) : str := [slash] ++ join [slash] comps.
+
+(* ---- helpers ---- *)
+
+Lemma str_eqb_refl : forall a, str_eqb a a = true.
+Proof. induction a as [|x a IH]; [reflexivity|]. cbn [str_eqb]. rewrite N.eqb_refl. exact IH. Qed.
+
+Lemma str_eqb_eq : forall a b, str_eqb a b = true -> a = b.
+Proof.
+  induction a as [|x a IH]; intros [|y b] H; try discriminate H; [reflexivity|].
+  cbn [str_eqb] in H. apply andb_prop in H. destruct H as [H1 H2].
+  apply N.eqb_eq in H1. subst y. f_equal. apply IH. exact H2.
+Qed.
+
+Lemma startswith_app : forall p x, startswith p (p ++ x) = true.
+Proof.
+  induction p as [|a p IH]; intros x; [reflexivity|].
+  cbn [app startswith]. rewrite N.eqb_refl. apply IH.
+Qed.
+
+Lemma endswith_app : forall e x, endswith e (x ++ e) = true.
+Proof. intros e x. unfold endswith. rewrite rev_app_distr. apply startswith_app. Qed.
+
+Lemma firstn_app_exact : forall (A : Type) (x y : list A), firstn (length x) (x ++ y) = x.
+Proof.
+  intros A x y. induction x as [|a x IH]; [reflexivity|].
+  cbn [length app firstn]. rewrite IH. reflexivity.
+Qed.
+
+Lemma last_opt_app1 : forall (A : Type) (l : list A) (x : A), last_opt (l ++ [x]) = Some x.
+Proof.
+  intros A l x. induction l as [|a l IH]; [reflexivity|].
+  cbn [app last_opt]. destruct (l ++ [x]) eqn:E.
+  - destruct l; discriminate E.
+  - exact IH.
+Qed.
+
+(* ---- P1: the extension strip ---- *)
+
+Theorem strip_cmake_ext_app : forall x, strip_cmake_ext (x ++ cmake_ext) = x.
+Proof.
+  intros x. unfold strip_cmake_ext. rewrite endswith_app.
+  rewrite app_length, Nat.add_sub. apply firstn_app_exact.
+Qed.
+
+Theorem strip_cmake_ext_other : forall x, endswith cmake_ext x = false -> strip_cmake_ext x = x.
+Proof. intros x H. unfold strip_cmake_ext. rewrite H. reflexivity. Qed.
+
+(* ---- P2: names from prefix, separator and relative name ---- *)
+
+Theorem names_from_prefix : forall (p sep : str) (et em : bool) (stem : str),
+  str_eqb (stem ++ cmake_ext) sep = false ->
+  header_and_module (Some p) sep et em (stem ++ cmake_ext)
+  = (p ++ sep ++ stem ++ (if et then cmake_ext else []),
+     p ++ sep ++ stem ++ (if em then cmake_ext else [])).
+Proof.
+  intros p sep et em stem H. unfold header_and_module, prefixed. rewrite H.
+  assert (E : strip_cmake_ext (p ++ sep ++ stem ++ cmake_ext) = p ++ sep ++ stem ++ []).
+  { rewrite app_nil_r. rewrite !app_assoc. rewrite strip_cmake_ext_app. reflexivity. }
+  destruct et, em; rewrite ?E; reflexivity.
+Qed.
+
+Theorem names_without_prefix : forall (sep : str) (et em : bool) (stem : str),
+  header_and_module None sep et em (stem ++ cmake_ext)
+  = (stem ++ (if et then cmake_ext else []), stem ++ (if em then cmake_ext else [])).
+Proof.
+  intros sep et em stem. unfold header_and_module, prefixed.
+  rewrite strip_cmake_ext_app. destruct et, em; rewrite ?app_nil_r; reflexivity.
+Qed.
+
+(* both cases in one statement *)
+Theorem names_expected : forall (pfx : option str) (sep : str) (et em : bool) (stem : str),
+  str_eqb (stem ++ cmake_ext) sep = false ->
+  header_and_module pfx sep et em (stem ++ cmake_ext)
+  = (expected_name pfx sep stem et, expected_name pfx sep stem em).
+Proof.
+  intros [p|] sep et em stem H; unfold expected_name.
+  - rewrite (names_from_prefix p sep et em stem H). rewrite <- !app_assoc. reflexivity.
+  - apply names_without_prefix.
+Qed.
+
+(* the extension is dropped iff the respective flag is false, independently *)
+Theorem extension_dropped_iff : forall (p sep : str) (et em : bool) (stem : str),
+  str_eqb (stem ++ cmake_ext) sep = false ->
+  fst (header_and_module (Some p) sep et em (stem ++ cmake_ext))
+    = (if et then p ++ sep ++ stem ++ cmake_ext else p ++ sep ++ stem)
+  /\ snd (header_and_module (Some p) sep et em (stem ++ cmake_ext))
+    = (if em then p ++ sep ++ stem ++ cmake_ext else p ++ sep ++ stem).
+Proof.
+  intros p sep et em stem H. rewrite (names_from_prefix p sep et em stem H).
+  cbn [fst snd]. destruct et, em; rewrite ?app_nil_r; split; reflexivity.
+Qed.
+
+(* any relative name: with both flags set nothing is stripped *)
+Theorem names_keep_ext : forall (p sep name : str),
+  str_eqb name sep = false ->
+  header_and_module (Some p) sep true true name = (p ++ sep ++ name, p ++ sep ++ name).
+Proof. intros p sep name H. unfold header_and_module, prefixed. rewrite H. reflexivity. Qed.
+
+Example names_from_prefix_nonvacuous :
+  str_eqb (s"sub/a" ++ cmake_ext) (s".") = false
+  /\ header_and_module (Some (s"proj")) (s".") false true (s"sub/a.cmake")
+     = (s"proj.sub/a", s"proj.sub/a.cmake").
+Proof. vm_compute. split; reflexivity. Qed.
+
+(* ---- P3 ---- *)
+
+Theorem names_start_with_prefix : forall (p sep : str) (et em : bool) (stem : str),
+  str_eqb (stem ++ cmake_ext) sep = false ->
+  startswith (p ++ sep) (fst (header_and_module (Some p) sep et em (stem ++ cmake_ext))) = true
+  /\ startswith (p ++ sep) (snd (header_and_module (Some p) sep et em (stem ++ cmake_ext))) = true.
+Proof.
+  intros p sep et em stem H. rewrite (names_from_prefix p sep et em stem H). cbn [fst snd].
+  rewrite !(app_assoc p sep). split; apply startswith_app.
+Qed.
+
+(* ---- P4: different files get different names ---- *)
+
+Lemma expected_name_inj : forall pfx sep k s1 s2,
+  expected_name pfx sep s1 k = expected_name pfx sep s2 k -> s1 = s2.
+Proof.
+  intros pfx sep k s1 s2 H. unfold expected_name in H.
+  apply app_inv_head in H. apply app_inv_tail in H. exact H.
+Qed.
+
+Theorem title_injective : forall (pfx : option str) (sep : str) (et em : bool) (s1 s2 : str),
+  str_eqb (s1 ++ cmake_ext) sep = false -> str_eqb (s2 ++ cmake_ext) sep = false ->
+  fst (header_and_module pfx sep et em (s1 ++ cmake_ext))
+  = fst (header_and_module pfx sep et em (s2 ++ cmake_ext)) ->
+  s1 ++ cmake_ext = s2 ++ cmake_ext.
+Proof.
+  intros pfx sep et em s1 s2 H1 H2 H.
+  rewrite (names_expected pfx sep et em s1 H1), (names_expected pfx sep et em s2 H2) in H.
+  cbn [fst] in H. rewrite (expected_name_inj _ _ _ _ _ H). reflexivity.
+Qed.
+
+Theorem module_name_injective : forall (pfx : option str) (sep : str) (et em : bool) (s1 s2 : str),
+  str_eqb (s1 ++ cmake_ext) sep = false -> str_eqb (s2 ++ cmake_ext) sep = false ->
+  snd (header_and_module pfx sep et em (s1 ++ cmake_ext))
+  = snd (header_and_module pfx sep et em (s2 ++ cmake_ext)) ->
+  s1 ++ cmake_ext = s2 ++ cmake_ext.
+Proof.
+  intros pfx sep et em s1 s2 H1 H2 H.
+  rewrite (names_expected pfx sep et em s1 H1), (names_expected pfx sep et em s2 H2) in H.
+  cbn [snd] in H. rewrite (expected_name_inj _ _ _ _ _ H). reflexivity.
+Qed.
+
+Theorem names_injective : forall (pfx : option str) (sep : str) (et em : bool) (s1 s2 : str),
+  str_eqb (s1 ++ cmake_ext) sep = false -> str_eqb (s2 ++ cmake_ext) sep = false ->
+  header_and_module pfx sep et em (s1 ++ cmake_ext)
+  = header_and_module pfx sep et em (s2 ++ cmake_ext) ->
+  s1 ++ cmake_ext = s2 ++ cmake_ext.
+Proof.
+  intros pfx sep et em s1 s2 H1 H2 H.
+  apply (title_injective pfx sep et em s1 s2 H1 H2). rewrite H. reflexivity.
+Qed.
+
+Example names_injective_nonvacuous :
+  str_eqb (s"a/x" ++ cmake_ext) (s".") = false /\ str_eqb (s"a/y" ++ cmake_ext) (s".") = false
+  /\ header_and_module (Some (s"p")) (s".") false false (s"a/x" ++ cmake_ext) = (s"p.a/x", s"p.a/x")
+  /\ header_and_module (Some (s"p")) (s".") false false (s"a/y" ++ cmake_ext) = (s"p.a/y", s"p.a/y").
+Proof. vm_compute. repeat split. Qed.
+
+(* F16: is_cmake_name is case-insensitive, the strip is case-sensitive: two accepted files
+   with the same title.  This is why both names must end in the lower-case extension. *)
+Example F16_case_collision_refuted :
+  is_cmake_name (s"x.CMAKE") = true /\ is_cmake_name (s"x.CMAKE.cmake") = true
+  /\ s"x.CMAKE" <> s"x.CMAKE.cmake"
+  /\ fst (header_and_module None (s".") false false (s"x.CMAKE"))
+     = fst (header_and_module None (s".") false false (s"x.CMAKE.cmake"))
+  /\ header_and_module (Some (s"p")) (s".") false false (s"x.CMAKE")
+     = header_and_module (Some (s"p")) (s".") false false (s"x.CMAKE.cmake").
+Proof. vm_compute. repeat split. discriminate. Qed.
+
+(* ---- P5: the @module rules ---- *)
+
+Theorem finalize_named_module : forall title m name doc rest,
+  name <> [] ->
+  finalize title m (EModule name doc :: rest) = (name, EModule name doc :: rest).
+Proof. intros title m [|a name] doc rest H; [contradiction H; reflexivity|reflexivity]. Qed.
+
+Theorem finalize_unnamed_module : forall title m doc rest,
+  finalize title m (EModule [] doc :: rest) = (title, EModule m doc :: rest).
+Proof. reflexivity. Qed.
+
+Theorem finalize_no_module : forall title m docs,
+  starts_with_module docs = false ->
+  finalize title m docs = (title, EModule m [] :: docs).
+Proof.
+  intros title m [|e docs] H; [reflexivity|]. destruct e; try reflexivity. discriminate H.
+Qed.
+
+Theorem finalize_spec : forall title m docs,
+  finalize title m docs =
+  match docs with
+  | EModule name doc :: rest =>
+      if str_eqb name [] then (title, EModule m doc :: rest) else (name, EModule name doc :: rest)
+  | _ => (title, EModule m [] :: docs)
+  end.
+Proof.
+  intros title m [|e docs]; [reflexivity|]. destruct e; try reflexivity.
+  destruct name; reflexivity.
+Qed.
+
+(* the entry list always starts with exactly the module entry, the rest is unchanged *)
+Theorem finalize_head : forall title m docs,
+  exists n d, snd (finalize title m docs)
+              = EModule n d :: (if starts_with_module docs then tl docs else docs).
+Proof.
+  intros title m [|e docs]; [exists m, []; reflexivity|].
+  destruct e; try (exists m, []; reflexivity).
+  destruct name as [|a name]; [exists m, doc|exists (a :: name), doc]; reflexivity.
+Qed.
+
+Theorem render_module_entry : forall n doc, doc <> [] ->
+  render_entry (EModule n doc) = Dir (s"module") [n] [] [Para doc].
+Proof. intros n [|a doc] H; [contradiction H; reflexivity|reflexivity]. Qed.
+
+Theorem render_module_entry_empty : forall n,
+  render_entry (EModule n []) = Dir (s"module") [n] [] [].
+Proof. reflexivity. Qed.
+
+(* ---- P6: the head of a page ---- *)
+
+Lemma repeat_str_single : forall n c, repeat_str n [c] = repeat c n.
+Proof. induction n as [|n IH]; intros c; [reflexivity|]. cbn [repeat_str repeat app]. rewrite IH. reflexivity. Qed.
+
+Theorem heading_text_single : forall c t,
+  heading_text [c] t
+  = [nl] ++ repeat c (length t) ++ [nl] ++ t ++ [nl] ++ repeat c (length t).
+Proof. intros c t. unfold heading_text. rewrite repeat_str_single. reflexivity. Qed.
+
+Theorem page_head : forall hdrs title m docs t n d rest,
+  finalize title m docs = (t, EModule n d :: rest) ->
+  render_page hdrs title m docs
+  = heading_text (nth 0 hdrs []) t ++ [nl]
+    ++ elem_text hdrs 0 0 (render_entry (EModule n d)) ++ [nl]
+    ++ body_text hdrs 0 0 (map render_entry rest).
+Proof.
+  intros hdrs title m docs t n d rest H. unfold render_page. rewrite H.
+  unfold doc_text, header_char, body_text. cbn [map concat].
+  rewrite <- !app_assoc. reflexivity.
+Qed.
+
+(* the finalize premise of page_head always has a solution *)
+Theorem page_head_exists : forall title m docs,
+  exists t n d rest, finalize title m docs = (t, EModule n d :: rest).
+Proof.
+  intros title m docs. destruct (finalize_head title m docs) as [n [d H]].
+  exists (fst (finalize title m docs)), n, d,
+         (if starts_with_module docs then tl docs else docs).
+  rewrite <- H. destruct (finalize title m docs); reflexivity.
+Qed.
+
+(* the module directive line itself *)
+Theorem module_directive_text : forall hdrs n,
+  elem_text hdrs 0 0 (render_entry (EModule n []))
+  = [nl] ++ s".. module:: " ++ n ++ [nl].
+Proof. intros hdrs n. cbn. reflexivity. Qed.
+
+Example page_head_example :
+  render_page [s"#"; s"*"] (s"ttl") (s"mod") [EModule (s"nm") (s"text"); EFunction false (s"f") (s"d") [] false]
+  = [nl] ++ s"##" ++ [nl] ++ s"nm" ++ [nl] ++ s"##" ++ [nl]
+    ++ [nl] ++ s".. module:: nm" ++ [nl] ++ [nl] ++ s"   text" ++ [nl] ++ [nl]
+    ++ [nl] ++ s".. function:: f()" ++ [nl] ++ [nl] ++ s"   d" ++ [nl] ++ [nl].
+Proof. vm_compute. reflexivity. Qed.
+
+(* ---- P7: paths ---- *)
+
+Lemma split_on_nonempty : forall c x, split_on c x <> [].
+Proof.
+  intros c x. destruct x as [|a r]; cbn [split_on]; [discriminate|].
+  destruct (a =? c)%N; [discriminate|]. destruct (split_on c r); discriminate.
+Qed.
+
+Lemma split_on_app_sep : forall c x y,
+  split_on c (x ++ c :: y) = split_on c x ++ split_on c y.
+Proof.
+  intros c x y. induction x as [|a x IH].
+  - cbn [app split_on]. rewrite N.eqb_refl. reflexivity.
+  - cbn [app split_on]. destruct (a =? c)%N.
+    + rewrite IH. reflexivity.
+    + rewrite IH. destruct (split_on c x) as [|h t] eqn:E.
+      * exfalso. exact (split_on_nonempty c x E).
+      * reflexivity.
+Qed.
+
+Lemma mem_false_not_in : forall c x, mem c x = false -> ~ In c x.
+Proof.
+  intros c x. induction x as [|a x IH]; intros H; [intros []|].
+  cbn [mem] in H. apply orb_false_elim in H. destruct H as [H1 H2].
+  intros [Hin|Hin]; [subst a; rewrite N.eqb_refl in H1; discriminate H1|exact (IH H2 Hin)].
+Qed.
+
+Lemma split_on_free : forall c x, ~ In c x -> split_on c x = [x].
+Proof.
+  intros c x. induction x as [|a x IH]; intros H; [reflexivity|].
+  cbn [split_on]. destruct (N.eqb_spec a c) as [E|E].
+  - exfalso. apply H. left. exact E.
+  - rewrite IH; [reflexivity|]. intros Hin. apply H. right. exact Hin.
+Qed.
+
+Lemma split_on_join : forall c ls,
+  ls <> [] -> Forall (fun l => ~ In c l) ls -> split_on c (join [c] ls) = ls.
+Proof.
+  intros c ls. induction ls as [|l ls IH]; intros Hne HF; [contradiction Hne; reflexivity|].
+  inversion HF as [|l' ls' Hl HF']; subst.
+  destruct ls as [|l2 ls2].
+  - cbn [join]. apply split_on_free. exact Hl.
+  - change (join [c] (l :: l2 :: ls2)) with (l ++ [c] ++ join [c] (l2 :: ls2)).
+    cbn [app]. rewrite split_on_app_sep. rewrite (split_on_free c l Hl).
+    rewrite IH; [reflexivity|discriminate|exact HF'].
+Qed.
+
+Lemma endswith_single : forall c d, endswith [c] d = true -> exists d', d = d' ++ [c].
+Proof.
+  intros c d H. unfold endswith in H. cbn [rev app] in H.
+  destruct (rev d) as [|z r] eqn:E; [discriminate H|].
+  cbn [startswith] in H. rewrite andb_true_r in H. apply N.eqb_eq in H. subst z.
+  exists (rev r). rewrite <- (rev_involutive d), E. reflexivity.
+Qed.
+
+Theorem basename_join2 : forall d n,
+  n <> [] -> ~ In slash n -> d <> [] -> basename (join2 d n) = n.
+Proof.
+  intros d n Hn Hs Hd. unfold join2.
+  assert (Habs : isabs n = false).
+  { destruct n as [|a n']; [reflexivity|]. cbn [isabs].
+    destruct (N.eqb_spec a 47) as [E|E]; [|reflexivity].
+    exfalso. apply Hs. left. exact E. }
+  rewrite Habs. destruct d as [|a d']; [contradiction Hd; reflexivity|].
+  unfold basename.
+  destruct (endswith [slash] (a :: d')) eqn:E.
+  - apply endswith_single in E. destruct E as [d0 E]. rewrite E.
+    rewrite <- app_assoc. cbn [app]. rewrite split_on_app_sep, (split_on_free slash n Hs).
+    rewrite last_opt_app1. reflexivity.
+  - cbn [app]. change (a :: d' ++ slash :: n) with ((a :: d') ++ slash :: n).
+    rewrite split_on_app_sep, (split_on_free slash n Hs).
+    rewrite last_opt_app1. reflexivity.
+Qed.
+
+Example basename_join2_nonvacuous :
+  basename (join2 (s"/a/b") (s"c.cmake")) = s"c.cmake"
+  /\ basename (join2 (s"/a/b/") (s"c.cmake")) = s"c.cmake".
+Proof. vm_compute. split; reflexivity. Qed.
+
+Lemma comp_ok_spec : forall c, comp_ok c = true -> c <> [] /\ ~ In slash c.
+Proof.
+  intros c H. unfold comp_ok in H. apply andb_prop in H. destruct H as [H1 H2].
+  split.
+  - intros ->. discriminate H1.
+  - apply mem_false_not_in. apply negb_true_iff. exact H2.
+Qed.
+
+Lemma forallb_comp_ok_free : forall cs, forallb comp_ok cs = true ->
+  Forall (fun l => ~ In slash l) cs.
+Proof.
+  induction cs as [|c cs IH]; intros H; [constructor|].
+  cbn [forallb] in H. apply andb_prop in H. destruct H as [H1 H2].
+  constructor; [exact (proj2 (comp_ok_spec c H1))|exact (IH H2)].
+Qed.
+
+Lemma filter_nonempty_ok : forall cs, forallb comp_ok cs = true ->
+  filter (fun c => negb (str_eqb c [])) cs = cs.
+Proof.
+  induction cs as [|c cs IH]; intros H; [reflexivity|].
+  cbn [forallb] in H. apply andb_prop in H. destruct H as [H1 H2].
+  cbn [filter]. unfold comp_ok in H1. apply andb_prop in H1. destruct H1 as [H1 _].
+  rewrite H1, (IH H2). reflexivity.
+Qed.
+
+(* the non-empty components of a joined list of good components *)
+Lemma filter_split_join : forall cs, forallb comp_ok cs = true ->
+  filter (fun c => negb (str_eqb c [])) (split_on slash (join [slash] cs)) = cs.
+Proof.
+  intros cs H. destruct cs as [|c cs]; [reflexivity|].
+  rewrite split_on_join; [apply filter_nonempty_ok; exact H|discriminate|].
+  apply forallb_comp_ok_free. exact H.
+Qed.
+
+Lemma nonempty_comps_abs : forall cs, forallb comp_ok cs = true ->
+  nonempty_comps (abs_of cs) = cs.
+Proof.
+  intros cs H. unfold nonempty_comps, abs_of. cbn [app].
+  change (slash :: join [slash] cs) with ([] ++ slash :: join [slash] cs).
+  rewrite split_on_app_sep. cbn [split_on app filter str_eqb negb].
+  apply filter_split_join. exact H.
+Qed.
+
+Lemma nonempty_comps_child : forall bc rel,
+  forallb comp_ok bc = true -> forallb comp_ok rel = true ->
+  nonempty_comps (abs_of bc ++ [slash] ++ join [slash] rel) = bc ++ rel.
+Proof.
+  intros bc rel Hb Hr. unfold nonempty_comps, abs_of. cbn [app].
+  change (slash :: join [slash] bc ++ slash :: join [slash] rel)
+    with ([] ++ slash :: (join [slash] bc ++ slash :: join [slash] rel)).
+  rewrite split_on_app_sep, split_on_app_sep. cbn [split_on app filter str_eqb negb].
+  rewrite filter_app, (filter_split_join bc Hb), (filter_split_join rel Hr). reflexivity.
+Qed.
+
+Lemma common_prefix_len_app : forall a b, common_prefix_len a (a ++ b) = length a.
+Proof.
+  induction a as [|x a IH]; intros b; [reflexivity|].
+  cbn [app common_prefix_len length]. rewrite str_eqb_refl, IH. reflexivity.
+Qed.
+
+Lemma skipn_app_exact : forall (A : Type) (x y : list A), skipn (length x) (x ++ y) = y.
+Proof. intros A x y. induction x as [|a x IH]; [reflexivity|]. exact IH. Qed.
+
+(* a file below an absolute base: its path relative to the base is the list of components
+   below the base, whatever the base is *)
+Theorem relpath_abs_child : forall bc rel,
+  forallb comp_ok bc = true -> forallb comp_ok rel = true -> rel <> [] ->
+  relpath_abs (abs_of bc ++ [slash] ++ join [slash] rel) (abs_of bc) = join [slash] rel.
+Proof.
+  intros bc rel Hb Hr Hne. unfold relpath_abs.
+  rewrite (nonempty_comps_abs bc Hb), (nonempty_comps_child bc rel Hb Hr).
+  rewrite common_prefix_len_app, Nat.sub_diag, skipn_app_exact. cbn [repeat app].
+  destruct rel as [|r rel']; [contradiction Hne; reflexivity|reflexivity].
+Qed.
+
+(* hence it does not depend on where the tree is located *)
+Corollary relpath_location_independent : forall bc1 bc2 rel,
+  forallb comp_ok bc1 = true -> forallb comp_ok bc2 = true ->
+  forallb comp_ok rel = true -> rel <> [] ->
+  relpath_abs (abs_of bc1 ++ [slash] ++ join [slash] rel) (abs_of bc1)
+  = relpath_abs (abs_of bc2 ++ [slash] ++ join [slash] rel) (abs_of bc2).
+Proof.
+  intros bc1 bc2 rel H1 H2 Hr Hne.
+  rewrite (relpath_abs_child bc1 rel H1 Hr Hne), (relpath_abs_child bc2 rel H2 Hr Hne).
+  reflexivity.
+Qed.
+
+Example relpath_abs_child_nonvacuous :
+  forallb comp_ok [s"home"; s"u"; s"proj"] = true /\ forallb comp_ok [s"sub"; s"a.cmake"] = true
+  /\ abs_of [s"home"; s"u"; s"proj"] = s"/home/u/proj"
+  /\ relpath_abs (s"/home/u/proj/sub/a.cmake") (s"/home/u/proj") = s"sub/a.cmake"
+  /\ relpath_abs (s"/sub/a.cmake") (abs_of []) = s"sub/a.cmake".
+Proof. vm_compute. repeat split. Qed.
+
+(* ==== MAIN THEOREMS ====
+   strip_cmake_ext_app strip_cmake_ext_other
+   names_from_prefix names_without_prefix names_expected extension_dropped_iff names_keep_ext
+   names_start_with_prefix
+   title_injective module_name_injective names_injective F16_case_collision_refuted
+   finalize_named_module finalize_unnamed_module finalize_no_module finalize_spec finalize_head
+   render_module_entry render_module_entry_empty
+   heading_text_single page_head page_head_exists module_directive_text
+   basename_join2 relpath_abs_child relpath_location_independent *)
+Print Assumptions strip_cmake_ext_app.
+Print Assumptions strip_cmake_ext_other.
+Print Assumptions names_from_prefix.
+Print Assumptions names_without_prefix.
+Print Assumptions names_expected.
+Print Assumptions extension_dropped_iff.
+Print Assumptions names_keep_ext.
+Print Assumptions names_start_with_prefix.
+Print Assumptions title_injective.
+Print Assumptions module_name_injective.
+Print Assumptions names_injective.
+Print Assumptions F16_case_collision_refuted.
+Print Assumptions finalize_named_module.
+Print Assumptions finalize_unnamed_module.
+Print Assumptions finalize_no_module.
+Print Assumptions finalize_spec.
+Print Assumptions finalize_head.
+Print Assumptions render_module_entry.
+Print Assumptions render_module_entry_empty.
+Print Assumptions heading_text_single.
+Print Assumptions page_head.
+Print Assumptions page_head_exists.
+Print Assumptions module_directive_text.
+Print Assumptions basename_join2.
+Print Assumptions relpath_abs_child.
+Print Assumptions relpath_location_independent.
